@@ -1,5 +1,7 @@
 """C07 — applying a rewrite replaces only the match."""
-MODULES = ["contracts.c07_rewrite"]
+# the removability guard of the matcher (_valid_to_replace) decides which instances a removing rule may touch: 'all other
+# nodes, values ... are untouched' and 'apply_to_model returns' depend on it
+MODULES = ["contracts.c07_rewrite", "contracts.c06_matcher:valid_to_replace"]
 
 CLASH = '''
 import sys
@@ -69,7 +71,41 @@ sys.exit(1 if bad else 0)
 '''
 
 
+NOT_REMOVABLE = '''
+import sys
+import onnx, onnx_ir as ir, numpy as np
+from onnx import helper, TensorProto
+from onnxscript.rewriter import pattern as orp
+def pat(op, x): return op.Transpose(op.Transpose(x, perm=[1, 0]), perm=[1, 0])
+def rep(op, x, **_): return op.Identity(x)
+rule = orp.RewriteRule(pat, rep)
+vi = helper.make_tensor_value_info
+g = helper.make_graph([helper.make_node("Transpose", ["a"], ["ta"], perm=[1, 0]), helper.make_node("Transpose", ["ta"], ["ya"], perm=[1, 0]),
+                       helper.make_node("Transpose", ["b"], ["tb"], perm=[1, 0]), helper.make_node("Transpose", ["tb"], ["yb"], perm=[1, 0])], "g",
+                      [vi("a", TensorProto.FLOAT, [2, 3]), vi("b", TensorProto.FLOAT, [2, 3])],
+                      [vi("ya", TensorProto.FLOAT, [2, 3]), vi("yb", TensorProto.FLOAT, [2, 3]), vi("tb", TensorProto.FLOAT, [3, 2])])
+m = ir.serde.deserialize_model(helper.make_model(g, opset_imports=[helper.make_opsetid("", 18)], ir_version=9))
+try:
+    n = rule.apply_to_model(m)
+    onnx.checker.check_model(ir.serde.serialize_model(m))
+except Exception as e:
+    print("Transpose(Transpose(x)) -> Identity on a model where one intermediate is also a graph output:", type(e).__name__, str(e)[:200])
+    sys.exit(1)
+ops = [x.op_type for x in m.graph]
+if n != 1 or ops.count("Transpose") != 2:
+    print("expected exactly the removable chain to be rewritten; applied", n, "nodes", ops)
+    sys.exit(1)
+sys.exit(0)
+'''
+
+
+def INCLUDE(name):
+    return name.startswith("C07.") or name.startswith("C06.matcher.valid_to_replace")
+
+
 def replay(ob):
+    if "valid_to_replace" in ob["name"]:
+        return NOT_REMOVABLE
     if "as_function.function_imports" in ob["name"]:
         return ASFN
     if "existing_initializer_with_the_same_name" in ob["name"]:
